@@ -962,7 +962,17 @@ func (s *mvSess) dropPrefix(ws []string, emit func(string, string), fail func(st
 				plan[len(plan)-1] += "[" + joinU64(ev.BotIDs) + "]"
 			}
 		}
-		emit("dropplan "+strings.Join(ws, " ")+" ev=1", "plan "+strings.Join(plan, ";"))
+		// the prefixes dropPrefixes actually works with: DropPrefix first removes those under which
+		// no key is visible (filterPrefixesToDrop); every compaction event carries the filtered list
+		// (no compaction at all: every prefix was filtered out; the C29 oracle below still checks
+		// that no visible key with a dropped prefix survives)
+		var pws []string
+		if len(comps) > 0 {
+			for _, p := range comps[0].DropPrefixes {
+				pws = append(pws, hx(p))
+			}
+		}
+		emit("dropplan "+strings.Join(pws, " ")+" ev=1", "plan "+strings.Join(plan, ";"))
 	}
 	badger.VerifPutBackEvents(comps)
 	s.emitEventsX(emit, fail, "", true)
